@@ -17,7 +17,7 @@ require (
 	github.com/JohnCGriffin/overflow v0.0.0-20170615021017-4d914c927216 // indirect
 	github.com/VictoriaMetrics/fastcache v1.5.7 // indirect
 	github.com/Workiva/go-datastructures v1.0.52 // indirect
-	github.com/Zilliqa/gozilliqa-sdk v1.2.1-0.20210927032600-4c733f2cb879 // indirect
+	github.com/Zilliqa/gozilliqa-sdk v1.2.1-0.20210927032600-4c733f2cb879
 	github.com/anishathalye/porcupine v1.3.0
 	github.com/aristanetworks/goarista v0.0.0-20190607111240-52c2a7864a08 // indirect
 	github.com/bits-and-blooms/bitset v1.2.1 // indirect
@@ -27,8 +27,8 @@ require (
 	github.com/btcsuite/go-socks v0.0.0-20170105172521-4720035b7bfd // indirect
 	github.com/buger/jsonparser v1.1.1 // indirect
 	github.com/cespare/xxhash/v2 v2.1.1 // indirect
-	github.com/confio/ics23/go v0.6.6 // indirect
-	github.com/cosmos/cosmos-sdk v0.39.1 // indirect
+	github.com/confio/ics23/go v0.6.6
+	github.com/cosmos/cosmos-sdk v0.39.1
 	github.com/cosmos/go-bip39 v0.0.0-20180819234021-555e2067c45d // indirect
 	github.com/davecgh/go-spew v1.1.1 // indirect
 	github.com/dchest/siphash v1.2.1 // indirect
@@ -52,15 +52,15 @@ require (
 	github.com/hashicorp/golang-lru v0.5.4 // indirect
 	github.com/holiman/uint256 v1.2.0 // indirect
 	github.com/itchyny/base58-go v0.1.0 // indirect
-	github.com/joeqian10/neo-gogogo v1.1.0 // indirect
-	github.com/joeqian10/neo3-gogogo v0.3.8 // indirect
-	github.com/joeqian10/neo3-gogogo-legacy v1.0.0 // indirect
+	github.com/joeqian10/neo-gogogo v1.1.0
+	github.com/joeqian10/neo3-gogogo v0.3.8
+	github.com/joeqian10/neo3-gogogo-legacy v1.0.0
 	github.com/matthewhartstonge/argon2 v0.2.1 // indirect
 	github.com/mattn/go-runewidth v0.0.4 // indirect
 	github.com/mimoo/StrobeGo v0.0.0-20181016162300-f8f6d4d2b643 // indirect
 	github.com/novifinancial/serde-reflection/serde-generate/runtime/golang v0.0.0-20210526181959-1694c58d103e // indirect
 	github.com/olekukonko/tablewriter v0.0.2-0.20190409134802-7e037d187b0c // indirect
-	github.com/ontio/ontology v1.11.1-0.20200812075204-26cf1fa5dd47 // indirect
+	github.com/ontio/ontology v1.11.1-0.20200812075204-26cf1fa5dd47
 	github.com/orcaman/concurrent-map v0.0.0-20190826125027-8c72a8bb44f6 // indirect
 	github.com/phoreproject/bls v0.0.0-20200525203911-a88a5ae26844 // indirect
 	github.com/pkg/errors v0.9.1 // indirect
@@ -70,16 +70,16 @@ require (
 	github.com/renlulu/gozilliqa-sdklegacy v0.0.0-20220127085552-852a2675dc93 // indirect
 	github.com/rubblelabs/ripple v0.0.0-20220222071018-38c1a8b14c18 // indirect
 	github.com/shirou/gopsutil v2.20.5-0.20200531151128-663af789c085+incompatible // indirect
-	github.com/starcoinorg/starcoin-go v0.0.0-20220803022851-4369901a66d0 // indirect
+	github.com/starcoinorg/starcoin-go v0.0.0-20220803022851-4369901a66d0
 	github.com/steakknife/bloomfilter v0.0.0-20180922174646-6819c0d2a570 // indirect
 	github.com/steakknife/hamming v0.0.0-20180906055917-c99c65617cd3 // indirect
 	github.com/stretchr/objx v0.2.0 // indirect
 	github.com/stretchr/testify v1.7.0 // indirect
 	github.com/switcheo/tendermint v0.34.14-2
-	github.com/tendermint/go-amino v0.15.1 // indirect
+	github.com/tendermint/go-amino v0.15.1
 	github.com/tendermint/iavl v0.14.0 // indirect
 	github.com/tendermint/tendermint v0.33.7
-	github.com/tendermint/tm-db v0.5.1 // indirect
+	github.com/tendermint/tm-db v0.5.1
 	github.com/valyala/bytebufferpool v1.0.0 // indirect
 	github.com/zquestz/grab v0.0.0-20190224022517-abcee96e61b1 // indirect
 	golang.org/x/net v0.0.0-20211112202133-69e39bad7dc2 // indirect
